@@ -32,6 +32,7 @@ type harnessResult struct {
 	fnsSeen      map[string]int
 	gwrites      map[string]bool
 	samples      []*PathSample
+	probes       []*PathSample
 	solver       SolverStats
 	paths        int64
 	transitions  int64
@@ -194,6 +195,7 @@ func cmdRun(argv []string) int {
 				for k := range h.gwrites {
 					hr.gwrites[k] = true
 				}
+				hr.probes = append(hr.probes, h.probes...)
 				// keep a seeded subset of samples
 				for i, s := range h.samples {
 					if len(hr.samples) < 40 && (int64(i)+seed)%3 == 0 || len(hr.samples) < 4 {
@@ -281,9 +283,15 @@ func finish(w *World, ev *Evidence, results []*harnessResult, kf *knownFindings,
 		for _, s := range hr.samples {
 			scripts = append(scripts, &replayScript{Harness: s.Harness, Pkg: hr.cfg.Pkg, Args: s.Args, Draws: s.Draws, UF: s.UF, Attempts: maxInt(1, hr.cfg.Attempts), sample: s, StubsOn: hr.cfg.StubsOn})
 		}
+		if !hr.cfg.Twin {
+			for _, s := range hr.probes {
+				scripts = append(scripts, &replayScript{Harness: s.Harness, Pkg: hr.cfg.Pkg, Args: s.Args, Draws: s.Draws, UF: s.UF, Attempts: maxInt(1, hr.cfg.Attempts), probe: s, StubsOn: hr.cfg.StubsOn})
+			}
+		}
 	}
 	tracesValidated := 0
 	traceMismatch := 0
+	probeSeen := map[string]bool{}
 	if len(scripts) > 0 && !noReplay {
 		if err := runNativeReplays(w, scripts, verbose); err != nil {
 			if verbose {
@@ -293,6 +301,26 @@ func finish(w *World, ev *Evidence, results []*harnessResult, kf *knownFindings,
 			ev.Inconclusive = append(ev.Inconclusive, "native replay: "+firstLine(err.Error()))
 		} else {
 			for _, s := range scripts {
+				if s.probe != nil {
+					// a native run on the inputs of a path the engine could not finish: a violation it shows is real
+					if s.result != nil && (len(s.result.Violated) > 0 || (s.result.Panic != "" && s.result.Panic != "ASSUME-FAILED") || s.result.Hang) {
+						id := "native-probe"
+						kind := "assert"
+						if len(s.result.Violated) > 0 {
+							id = s.result.Violated[0]
+						} else if s.result.Hang {
+							kind, id = "hang", "hang (native probe)"
+						} else {
+							kind, id = "panic", "panic: "+s.result.Panic
+						}
+						if !probeSeen[s.Harness+id] {
+							probeSeen[s.Harness+id] = true
+							confirmed = append(confirmed, &Violation{Harness: s.Harness, Args: s.Args, AssertID: id, Kind: kind, Draws: s.Draws, UF: s.UF,
+								Msg: "found by running the inputs of an engine-unsupported path natively (" + s.probe.Outcome + ")"})
+						}
+					}
+					continue
+				}
 				if s.sample != nil {
 					if s.result == nil {
 						continue
